@@ -208,10 +208,19 @@ wantsLoop:
 		q := list.New()
 		q.PushBack(commitDepth{[]byte(want), 0})
 		sums := [][]byte{}
+		// visited ensures each commit is expanded once per want. Because the walk
+		// is breadth-first, the first visit is at the smallest depth.
+		visited := map[string]struct{}{}
+		found := map[string]*objects.Commit{}
 		for q.Len() > 0 {
 			cd := q.Remove(q.Front()).(commitDepth)
+			if _, ok := visited[string(cd.sum)]; ok {
+				continue
+			}
+			visited[string(cd.sum)] = struct{}{}
 			sums = append(sums, cd.sum)
-			if _, ok := alreadySeenCommits[string(cd.sum)]; ok {
+			_, seen := alreadySeenCommits[string(cd.sum)]
+			if seen && (f.depth == 0 || cd.depth >= f.depth) {
 				continue
 			}
 			if _, ok := f.commons[string(cd.sum)]; ok {
@@ -221,8 +230,11 @@ wantsLoop:
 			if err != nil {
 				return err
 			}
-			commitList.PushFront(c)
+			if !seen {
+				found[string(cd.sum)] = c
+			}
 			if f.depth == 0 || cd.depth < f.depth {
+				// a commit queued for an earlier want might be closer to this one
 				tableList.PushFront(c.Table)
 			}
 			if cont != nil && cont(want, c) {
@@ -230,6 +242,33 @@ wantsLoop:
 			}
 			for _, p := range c.Parents {
 				q.PushBack(commitDepth{p, cd.depth + 1})
+			}
+		}
+		// list found commits so that parents always precede their children
+		type frame struct {
+			c    *objects.Commit
+			next int
+		}
+		for _, sum := range sums {
+			c, ok := found[string(sum)]
+			if !ok {
+				continue
+			}
+			delete(found, string(sum))
+			stack := []*frame{{c: c}}
+			for len(stack) > 0 {
+				fr := stack[len(stack)-1]
+				if fr.next < len(fr.c.Parents) {
+					p := string(fr.c.Parents[fr.next])
+					fr.next++
+					if pc, ok := found[p]; ok {
+						delete(found, p)
+						stack = append(stack, &frame{c: pc})
+					}
+					continue
+				}
+				stack = stack[:len(stack)-1]
+				commitList.PushBack(fr.c)
 			}
 		}
 		// queue is exhausted mean everything is reachable from commons
